@@ -70,7 +70,7 @@ pub struct Stream<T: Uni> {
     pub min_n: usize,
     /// non-triviality rule
     pub rule: fn(&Exact) -> bool,
-    pub _p: PhantomData<T>,
+    pub _p: PhantomData<fn() -> T>,
 }
 impl<T: Uni> Check for Stream<T> {
     type Case = Xs;
